@@ -398,7 +398,42 @@ func (engine) Generate(r *lib.Rng, tier string, i int) any {
 	if c.InErr != nil {
 		c.InPos = g.weighted(55, 30, 15)
 	}
+	// node options that wrap the node's runnable: output keys, and input keys taking one predecessor's keyed output
+	// (not in workflows: their inputs are field mappings; not beside rerun requests and state handlers)
+	if !hasBeh(c.G, "rerun") && !hasBeh(c.G, "prefail") && !hasBeh(c.G, "postfail") && r.Chance(30, 100) {
+		g.keys(c.G)
+	}
+	// half of the cases make their context with WithCancelCause / WithDeadlineCause: whoever cancels gives a cause
+	c.Cause = r.Chance(50, 100)
 	return c
+}
+
+// keys: a fifth of the nodes of the Graph / Chain graphs of the case get an output key; a node behind a keyed
+// predecessor mostly takes its input by that key.
+func (g *gen) keys(gr *Graph) {
+	r := g.r
+	for s, st := range gr.Stages {
+		for _, n := range st {
+			if n.Sub != nil {
+				g.keys(n.Sub)
+			}
+			if gr.WF {
+				continue
+			}
+			if s >= 1 && n.Kind == "lam" {
+				var keyed []*Node
+				for _, p := range gr.Stages[s-1] {
+					if p.OutKey {
+						keyed = append(keyed, p)
+					}
+				}
+				if len(keyed) > 0 && r.Chance(60, 100) {
+					n.InKey = keyed[r.Intn(len(keyed))].Key
+				}
+			}
+			n.OutKey = r.Chance(20, 100)
+		}
+	}
 }
 
 func hasBeh(g *Graph, beh string) bool {
